@@ -29,7 +29,7 @@ def canon_families(fams):
         ms = []
         for m in f["metrics"]:
             labels = [[list(n.encode()), list(v.encode())] for n, v in m["labels"]]
-            gauge, counter, untyped = [dbl(m["gauge"])], [dbl(m["counter"])], [ZERO8]
+            gauge, counter, untyped = [dbl(m["gauge"])], [dbl(m["counter"])], [dbl(m["untyped"]) if "untyped" in m else ZERO8]
             summary, hist = [[], ZERO8, []], [[], ZERO8, []]
             if "summary" in m:
                 s = m["summary"]
@@ -99,7 +99,7 @@ def run(ctx):
         calls.append(dict({"op": "pb_encode"}, **src))
         jobs.append({"id": j["id"], "calls": calls, "tag": j["tag"]})
     # families of type UNTYPED and empty help are legal protobuf too
-    extra = [{"name": "u", "help": "", "type": "UNTYPED", "metrics": [{"labels": [["a", "b"]], "ts": -1}]},
+    extra = [{"name": "u", "help": "", "type": "UNTYPED", "metrics": [{"labels": [["a", "b"]], "ts": -1}, {"labels": [["a", "c"]], "untyped": F(2.5)}, {"labels": [], "untyped": F(float("-inf")), "ts": 7}]},
              {"name": "s", "help": "h", "type": "SUMMARY", "metrics": [{"labels": [], "summary": {"count": 2 ** 40, "sum": F(1.5), "q": [[F(0.5), F(float("nan"))]]}}]}]
     jobs.append({"id": 10 ** 6, "calls": [{"op": "families_json", "lit": extra}, {"op": "pb_encode", "lit": extra}], "tag": "untyped"})
     # refusal: a family without a name / without samples is refused, and nothing of it is written
@@ -108,6 +108,11 @@ def run(ctx):
     for bad in ({"name": "", "help": "h", "type": "GAUGE", "metrics": [{"labels": [], "gauge": F(1.0)}]}, {"name": "e", "help": "h", "type": "COUNTER", "metrics": []}):
         for lst, npre in (([bad], 0), ([good, bad, good], 1), ([good, good, bad], 2)):
             refusals.append({"id": 10 ** 5 + len(refusals), "calls": [{"op": "families_json", "lit": lst[:npre]}, {"op": "pb_encode", "lit": lst}], "tag": "refusal", "npre": npre})
+    # ... also when a family of the SAME name was encoded successfully just before (on the same thread, with the same encoder value and
+    # with a new one): what an earlier call accepted does not vouch for a later family
+    for k, bad in enumerate(({"name": "g", "help": "h", "type": "GAUGE", "metrics": []}, {"name": "g", "help": "other", "type": "COUNTER", "metrics": []})):
+        for npre, lst in ((0, [bad]), (1, [good, bad])):
+            refusals.append({"id": 10 ** 5 + len(refusals), "calls": [{"op": "pb_encode", "lit": [good]}, {"op": "pb_encode", "lit": [good, good]}, {"op": "families_json", "lit": lst[:npre]}, {"op": "pb_encode", "lit": lst}], "tag": "refusal", "npre": npre})
     res = run_api(ctx, exe, [{"id": j["id"], "calls": j["calls"]} for j in jobs + refusals], "pb", nproc=12)
     recs = []
     for j in jobs + refusals:
